@@ -4,7 +4,8 @@
    [hexnum p] is the number written by the hex digits p (either case); [len] is the length as N;
    [Panic] is any Rust panic (slice bounds, expect, debug assertion), [OutOfFuel] a non-terminating loop. *)
 From GixV.Base Require Import Bytes BytesFacts Outcome.
-From GixV.C29 Require Import Tables Model Proofs ProofsCodec ProofsReader ProofsSideband.
+From Coq Require Import Lia.
+From GixV.C29 Require Import Tables Model Proofs ProofsCodec ProofsReader ProofsSideband ProofsLines.
 Local Open Scope N_scope.
 
 (* ---- length prefixes --------------------------------------------------------------------------- *)
@@ -94,6 +95,56 @@ Theorem chunking_is_irrelevant : forall c1 c2 ds f ops,
     run_ops ops (set_fail_on_err (iter_new c1 ds) f) = Ok (xs, it1) /\
     run_ops ops (set_fail_on_err (iter_new c2 ds) f) = Ok (xs, it2).
 Proof. exact L_chunking_irrelevant. Qed.
+
+(* ---- the reader yields exactly the written lines ---------------------------------------------------- *)
+
+(* [wire l] is what the encoder writes for the line l: every successful *_to_write call writes the wire
+   form of the data line with content prefix ++ payload ++ suffix, which is a [valid] line *)
+Theorem encoder_writes_wire : forall p d s n out, prefixed_and_suffixed p d s = Ok (n, out) ->
+  out = wire (Data (p ++ d ++ s)) /\ valid (Data (p ++ d ++ s)) /\ n = len out.
+Proof. exact L_encoder_writes_wire. Qed.
+Theorem control_line_writes_wire : forall l n out, as_slice l = None -> line_write_to l = Ok (n, out) -> out = wire l.
+Proof. exact L_control_writes_wire. Qed.
+
+(* any list of accepted lines (data/text/ERR/band contents, and control lines that are not configured as
+   delimiters; with ERR detection on, lines that do not start with "ERR "), followed by a configured
+   delimiter and arbitrary further bytes, delivered in ANY chunking: read_line yields exactly those lines
+   in order, then None at the delimiter, stopped_at names it, further reads stay None, and the reader is
+   left exactly at the bytes after the delimiter *)
+Theorem reader_yields_written_lines : forall ls dl rest chunks ds f,
+  Forall (passes ds f) ls -> valid dl -> find_line ds dl = Some dl ->
+  nonempty chunks -> concat chunks = concat (map wire ls) ++ wire dl ++ rest ->
+  exists it',
+    run_ops (repeat OpRead (length ls) ++ [OpRead; OpStopped; OpRead]) (set_fail_on_err (iter_new chunks ds) f)
+    = Ok (map (fun l => ORes (Some (RLine l))) ls ++ [ORes None; OStop (Some dl); ORes None], it') /\
+    concat (rd it') = rest.
+Proof. exact L_reader_yields_written_lines. Qed.
+
+(* without a delimiter: the lines in order, the rest of the stream untouched *)
+Theorem reader_yields_lines_prefix : forall ls rest chunks ds f,
+  Forall (passes ds f) ls -> nonempty chunks -> concat chunks = concat (map wire ls) ++ rest ->
+  exists it',
+    run_ops (repeat OpRead (length ls)) (set_fail_on_err (iter_new chunks ds) f)
+    = Ok (map (fun l => ORes (Some (RLine l))) ls, it') /\ concat (rd it') = rest.
+Proof. exact L_reader_yields_lines_prefix. Qed.
+
+(* the hypotheses are satisfiable: a data line, a delimiter line passing through, a side-band line *)
+Example written_lines_hypotheses :
+  Forall (passes [Flush] false) [Data (bs "hi"); Delimiter; Data (x01 :: bs "pack")] /\
+  valid Flush /\ find_line [Flush] Flush = Some Flush /\
+  nonempty [bs "0006h"; bs "i00010009"; x01 :: bs "pack0000"] /\
+  concat [bs "0006h"; bs "i00010009"; x01 :: bs "pack0000"]
+  = concat (map wire [Data (bs "hi"); Delimiter; Data (x01 :: bs "pack")]) ++ wire Flush ++ [].
+Proof.
+  split; [|split; [exact I|split; [reflexivity|split; [|reflexivity]]]].
+  - assert (P : forall c, 1 <= len c <= 65516 -> bytes_eqb c c = true -> passes [Flush] false (Data c)).
+    { intros c Hc _. split; [exact Hc | split; reflexivity]. }
+    apply Forall_cons; [apply P; [cbv; split; discriminate | reflexivity]|].
+    apply Forall_cons; [split; [exact I | split; reflexivity]|].
+    apply Forall_cons; [apply P; [cbv; split; discriminate | reflexivity]|]. apply Forall_nil.
+  - apply Forall_cons; [discriminate|]. apply Forall_cons; [discriminate|].
+    apply Forall_cons; [discriminate|]. apply Forall_nil.
+Qed.
 
 (* ---- the side-band reader ---------------------------------------------------------------------- *)
 
